@@ -1620,10 +1620,67 @@ pub fn traf_storm_image(seed: u64) -> (Vec<u8>, Option<usize>) {
     (out, Some(init_len))
 }
 
+/// *Top-level storm*: a small valid movie followed by 6 000 - 20 000 small top-level boxes of one
+/// kind - event messages (`emsg`, version 0 or 1, same scheme and value, ids distinct, equal or
+/// cycling), `free` boxes, unknown boxes, or empty `moof`s. Whatever the reader does per
+/// top-level box must not be multiplied by the number of top-level boxes already seen.
+pub fn top_level_storm_image(seed: u64) -> Vec<u8> {
+    let mut r = Rng::new(seed ^ 0x70B5);
+    let mut out = mux_bytes(&small_scenario(seed));
+    let k = 6000 + r.below(14_000) as u32;
+    let kind = r.below(6);
+    let id_law = r.below(3);
+    let scheme: &[u8] = if r.chance(1, 2) { b"urn:x\0" } else { b"\0" };
+    let value: &[u8] = if r.chance(1, 2) { b"1\0" } else { b"\0" };
+    for i in 0..k {
+        let id = match id_law {
+            0 => i,
+            1 => 7,
+            _ => i % 5,
+        };
+        let mut b: Vec<u8> = Vec::new();
+        let name: &[u8; 4] = match kind {
+            0 | 1 | 2 => {
+                if kind == 2 || (kind == 1 && i % 2 == 1) {
+                    b.extend_from_slice(&[1, 0, 0, 0]); // version 1
+                    b.extend_from_slice(&1000u32.to_be_bytes());
+                    b.extend_from_slice(&(i as u64).to_be_bytes());
+                    b.extend_from_slice(&1u32.to_be_bytes());
+                    b.extend_from_slice(&id.to_be_bytes());
+                    b.extend_from_slice(scheme);
+                    b.extend_from_slice(value);
+                } else {
+                    b.extend_from_slice(&[0, 0, 0, 0]); // version 0
+                    b.extend_from_slice(scheme);
+                    b.extend_from_slice(value);
+                    b.extend_from_slice(&1000u32.to_be_bytes());
+                    b.extend_from_slice(&i.to_be_bytes());
+                    b.extend_from_slice(&1u32.to_be_bytes());
+                    b.extend_from_slice(&id.to_be_bytes());
+                }
+                b"emsg"
+            }
+            3 => b"free",
+            4 => {
+                b.extend_from_slice(&i.to_be_bytes());
+                b"zz7z"
+            }
+            _ => b"moof",
+        };
+        out.extend_from_slice(&(8 + b.len() as u32).to_be_bytes());
+        out.extend_from_slice(name);
+        out.extend_from_slice(&b);
+    }
+    out
+}
+
 pub fn scale_image(seed: u64) -> (Vec<u8>, Option<usize>) {
     let mut r = Rng::new(seed ^ 0x5CA1E);
     if r.chance(1, 5) {
         return traf_storm_image(seed);
+    }
+    if r.chance(1, 6) {
+        return (top_level_storm_image(seed), None);
     }
     // valid building blocks from the real muxer: ftyp, mdat and the trak boxes of a small history
     let base = mux_bytes(&small_scenario(seed));
@@ -2238,7 +2295,9 @@ mod shape_tests {
                 slowest = slowest.max(t0.elapsed());
             }
             eprintln!("{name}: {opened}/{n} open, slowest open {slowest:?}");
-            assert!(opened * 4 >= n, "only {opened}/{n} {name} images open");
+            // (a sanity floor, not a calibrated rate: which box gets wrapped depends on the
+            // generated history, and a third of the wrapped boxes are leaves the reader searches)
+            assert!(opened * 8 >= n, "only {opened}/{n} {name} images open");
         }
     }
 }
